@@ -30,6 +30,11 @@ def Store.set : Store → Key → EIvl → Store
   | [], k, v => [(k, v)]
   | (k', w) :: rest, k, v => if k' == k then (k', v) :: rest else (k', w) :: Store.set rest k v
 
+/-- `StateGoal.__init__`: the function key of a goal on a state is the canonical name of the state,
+    prefixed with `"-"` when the state is a negated alias of it (`canonical_signed` gives sign -1) -/
+def stateGoalKey (canonical : String) (positive : Bool) : String :=
+  if positive then canonical else "-" ++ canonical
+
 /-- soft-to-hard conversion of one entry: `store[k] = new.update_bounds(existing, enforce="other")` -/
 def storeOther (s : Store) (k : Key) (new : EIvl) : Store :=
   match s.get k with
